@@ -18,7 +18,8 @@ from ..runner import derive_seed
 ID = "C12"
 LEVEL = "exploration"
 RULE = ("part A: every composition of the frame length as short-write pattern for frames of 6..12 bytes (enumerated), "
-        "seeded patterns for frames up to 70 kB incl. one byte at a time; part B: 2..4 threads each sending 1..4 uniquely "
+        "seeded patterns for frames up to 70 kB incl. one byte at a time, and patterns that end in 'nothing for longer than the "
+        "socket timeout' (the write times out inside the frame, a later send succeeds); part B: 2..4 threads each sending 1..4 uniquely "
         "tagged text/binary/ping messages on one connection with short writes; part C: 2..4 threads calling recv() (or recv_data(), or each thread its own of recv()/recv_data()/recv_data_frame()) while "
         "the peer sends unique messages (some fragmented, pings interleaved) and then ends the stream.  Schedules: seeded "
         "policies coop / prob(p in 1/512,1/64,1/8) / pct(d=1..3) over line-level pre-emption points inside "
@@ -89,7 +90,8 @@ def expand(item, seed):
                        "fixed_hex": payload.hex()}
     elif k == "A_rand":
         for i in range(item["start"], item["start"] + item["count"]):
-            yield genA(random.Random(derive_seed(seed, ID + "A", i)))
+            rng_ = random.Random(derive_seed(seed, ID + "A", i))
+            yield genA_stall(rng_) if i % 5 == 4 else genA(rng_)
     elif k == "B_rand":
         for i in range(item["start"], item["start"] + item["count"]):
             yield genB(random.Random(derive_seed(seed, ID + "B", i)))
@@ -139,6 +141,15 @@ def _policy(rng):
     # bytecode-level pre-emption (frame.f_trace_opcodes) was tried and withdrawn: CPython 3.12 crashes (SIGSEGV) or loses
     # the hand-over when a trace function blocks inside an 'opcode' event, so the granularity stays at the source line
     return dict(rng.choice(POLICIES))
+
+
+def genA_stall(rng):
+    sc = genA(rng)
+    if len(sc["msgs"]) < 2:
+        sc["msgs"] = sc["msgs"] + [{"kind": "bytes", "len": rng.choice((0, 5, 200)), "pseed": 7}]
+    n0 = int(sc["msgs"][0]["len"])
+    sc["stall_after"] = rng.choice((0, 1, 2, 3, 5, 6, max(0, n0 // 2), n0 + 1))
+    return sc
 
 
 def genB(rng):
@@ -238,13 +249,21 @@ def runA(sc):
                 pls.append(bytes(r.choice(b"abcdefgh") for _ in range(n)) if m["kind"] == "text" else r.randbytes(n))
     except (KeyError, TypeError, ValueError) as e:
         raise InvalidScenario(str(e))
-    w, peers = std_world(seed=int(sc.get("seed", 1)), sock={"accept": accept, "accept_cyclic": bool(sc.get("accept_cyclic"))},
-                         step_cap=3_000_000)
+    sockcfg = {"accept": accept, "accept_cyclic": bool(sc.get("accept_cyclic"))}
+    stall_after = sc.get("stall_after")
+    if stall_after is not None:
+        # a pattern of short writes whose last piece is "nothing for longer than the socket timeout": the transport takes
+        # k bytes of the first frame and then no more until the write has timed out; afterwards it takes bytes again
+        if not 0 <= int(stall_after) <= 200000 or len(msgs) < 2:
+            raise InvalidScenario("stall_after")
+        sockcfg["send_fail"] = {"after_bytes": int(stall_after), "errno": "TIMEOUT"}
+    w, peers = std_world(seed=int(sc.get("seed", 1)), sock=sockcfg, step_cap=3_000_000)
     with w:
         ws = w.ws
         c = ws.create_connection(f"ws://{HOST}/", timeout=5)
         conn = w.net.conns[0]
-        for m, pl in zip(msgs, pls):
+        timed_out = None
+        for mi, (m, pl) in enumerate(zip(msgs, pls)):
             before = len(conn.rx)
             try:
                 if m["kind"] == "text":
@@ -253,8 +272,29 @@ def runA(sc):
                     ret = c.send_binary(pl)
             except SimAbort:
                 raise
-            except BaseException as e:  # noqa
+            except ws.WebSocketConnectionClosedException as e:
+                if timed_out is not None:
+                    break  # the connection was given up after the write that timed out: nothing further reaches the wire
                 res.violate("send_raised_under_short_writes", "one_thread", f"{exc_name(e)}: {e}")
+                break
+            except BaseException as e:  # noqa
+                if stall_after is not None and timed_out is None and isinstance(e, ws.WebSocketTimeoutException):
+                    timed_out = (mi, len(conn.rx) - before)
+                    res.probes["write_timed_out_midframe"] = 1
+                    continue
+                res.violate("send_raised_under_short_writes", "one_thread", f"{exc_name(e)}: {e}")
+                break
+            if timed_out is not None:
+                # a later call succeeded on the same connection: what the server can decode behind the handshake must be
+                # whole frames, the cut-off frame of the failed call cannot be one of them
+                stream_ = peers[0].ws_bytes()
+                frs, pos = R.decode_all(stream_)
+                good = [f_ for f_ in frs if f_.payload in pls]
+                if timed_out[1] > 0 and (pos != len(stream_) or len(good) != len(frs) or not any(f_.payload == pl for f_ in frs)):
+                    res.violate("partial_frame_left_on_wire", "send_timeout_midframe",
+                                f"send #{timed_out[0]} timed out after {timed_out[1]} of its frame's bytes had been written; send #{mi} then "
+                                f"returned normally, but the server cannot find its frame: {len(frs)} frames decoded "
+                                f"({len(good)} of them sent by the caller), {len(stream_) - pos} undecodable trailing bytes")
                 break
             got = bytes(conn.rx[before:])
             f = R.decode_one(got)
@@ -268,7 +308,7 @@ def runA(sc):
                 break
     res.absorb(w)
     res.nontrivial = bool(w.net.counters.get("short_write"))
-    res.sig = repr(("A", [len(p) for p in pls], tuple(accept[:16]), bool(sc.get("accept_cyclic"))))
+    res.sig = repr(("A", [len(p) for p in pls], tuple(accept[:16]), bool(sc.get("accept_cyclic")), stall_after))
     return res
 
 
